@@ -1,6 +1,9 @@
 package simrt
 
-import "unsafe"
+import (
+	"reflect"
+	"unsafe"
+)
 
 // Channel operations of the instrumented code (send statements, receive
 // expressions, close calls are rewritten by siminstr to Send / Recv / Recv2 /
@@ -8,8 +11,9 @@ import "unsafe"
 // at simulator level; the real operation is executed when it can complete, so
 // the race detector sees exactly the synchronisation the real program has. An
 // unbuffered rendezvous is carried out by both goroutines for real while only
-// one of them holds the token. select statements and range-over-channel loops
-// are not modelled (a tree using them trips the watchdog: exit 2).
+// one of them holds the token. range-over-channel loops become Recv2 loops;
+// select statements become a switch over Select (below), except those waiting
+// on channels fed by the runtime (timers, contexts), which stay as they are.
 
 const (
 	dirNone = iota
@@ -25,11 +29,27 @@ func parkedOn(key uintptr, dir int) *task {
 	s := cur
 	for i := int32(0); i < s.ntasks; i++ {
 		t := s.tasks[i]
-		if t.blocked && t.waitObj == key && t.waitDir == dir && !t.done {
+		if !t.blocked || t.done {
+			continue
+		}
+		if t.waitObj == key && t.waitDir == dir {
 			return t
+		}
+		for j := 0; j < t.nsel; j++ {
+			if t.sel[j].key == key && t.sel[j].dir == dir {
+				t.rvIdx = t.sel[j].idx
+				return t
+			}
 		}
 	}
 	return nil
+}
+
+// release makes a parked peer runnable for an unbuffered rendezvous.
+//
+//go:norace
+func release(t *task) {
+	t.blocked, t.waitObj, t.waitDir, t.nsel, t.rv = false, 0, dirNone, 0, true
 }
 
 // parkOnly parks the calling task (which does not hold the token and is
@@ -64,7 +84,7 @@ func Send[T any](ch chan<- T, v T) {
 			if r := parkedOn(key, dirRecv); r != nil {
 				// rendezvous with a parked receiver: it gets the token and
 				// receives for real while this goroutine sends for real
-				r.blocked, r.waitObj, r.waitDir, r.rv = false, 0, dirNone, true
+				release(r)
 				if n := s.res.NSwitch; n < MaxSwitches {
 					s.res.Switches[n] = Switch{Step: s.res.Steps, From: me.id, To: r.id, Site: -6}
 				}
@@ -124,7 +144,7 @@ func Recv2[T any](ch <-chan T) (v T, ok bool) {
 			if snd := parkedOn(key, dirSend); snd != nil {
 				// rendezvous with a parked sender: wake its goroutine for the real
 				// send (it parks again afterwards) and receive for real
-				snd.blocked, snd.waitObj, snd.waitDir, snd.rv = false, 0, dirNone, true
+				release(snd)
 				raceOff()
 				snd.wake <- struct{}{}
 				raceOn()
@@ -153,4 +173,209 @@ func Close[T any](ch chan<- T) {
 	if active {
 		wake(*(*uintptr)(unsafe.Pointer(&ch)))
 	}
+}
+
+// ------------------------------------------------------------------ select
+
+// MaxSelect is the largest number of communication cases of one select.
+const MaxSelect = 8
+
+type selWait struct {
+	key uintptr
+	dir int
+	idx int
+}
+
+// SelCase is one communication case of a select statement.
+type SelCase interface {
+	selKey() uintptr
+	selDir() int
+	selCap() int
+	try() bool // the real operation, non-blocking
+	do()       // the real operation, blocking
+	reflCase() reflect.SelectCase
+	reflSet(v reflect.Value, ok bool)
+}
+
+// RecvSel is `case v, ok := <-ch`.
+type RecvSel[T any] struct {
+	ch <-chan T
+	V  T
+	Ok bool
+}
+
+// SendSel is `case ch <- v`.
+type SendSel[T any] struct {
+	ch chan<- T
+	v  T
+}
+
+func RecvCase[T any](ch <-chan T) *RecvSel[T]      { return &RecvSel[T]{ch: ch} }
+func SendCase[T any](ch chan<- T, v T) *SendSel[T] { return &SendSel[T]{ch: ch, v: v} }
+
+//go:norace
+func (c *RecvSel[T]) selKey() uintptr { return chanKey(c.ch) }
+
+//go:norace
+func (c *RecvSel[T]) selDir() int { return dirRecv }
+
+//go:norace
+func (c *RecvSel[T]) selCap() int { return cap(c.ch) }
+
+//go:norace
+func (c *RecvSel[T]) try() bool {
+	select {
+	case c.V, c.Ok = <-c.ch:
+		return true
+	default:
+		return false
+	}
+}
+
+//go:norace
+func (c *RecvSel[T]) do() { c.V, c.Ok = <-c.ch }
+
+//go:norace
+func (c *SendSel[T]) selKey() uintptr { return *(*uintptr)(unsafe.Pointer(&c.ch)) }
+
+//go:norace
+func (c *SendSel[T]) selDir() int { return dirSend }
+
+//go:norace
+func (c *SendSel[T]) selCap() int { return cap(c.ch) }
+
+//go:norace
+func (c *SendSel[T]) try() bool {
+	select {
+	case c.ch <- c.v:
+		return true
+	default:
+		return false
+	}
+}
+
+//go:norace
+func (c *SendSel[T]) do() { c.ch <- c.v }
+
+// Select is the head of a rewritten select statement: it returns the index of
+// the case whose communication it carried out, or -1 for the default clause.
+// Among several ready cases the choice comes from the run's PRNG (a rotation of
+// the case list), so it is part of the schedule and replays with it.
+//
+//go:norace
+func Select(hasDefault bool, cases ...SelCase) int {
+	n := len(cases)
+	if !active {
+		return selectReal(hasDefault, cases)
+	}
+	if n > MaxSelect {
+		panic("simrt: select with too many cases")
+	}
+	s := cur
+	for {
+		me := s.cur
+		start := 0
+		if n > 1 {
+			start = int(s.rand() % uint64(n))
+		}
+		for k := 0; k < n; k++ {
+			i := (start + k) % n
+			c := cases[i]
+			key := c.selKey()
+			if key == 0 {
+				continue // nil channel: never ready
+			}
+			if c.try() { // buffered progress, or a closed channel
+				wake(key)
+				return i
+			}
+			if c.selCap() != 0 {
+				continue
+			}
+			if c.selDir() == dirSend {
+				if r := parkedOn(key, dirRecv); r != nil {
+					release(r)
+					if m := s.res.NSwitch; m < MaxSwitches {
+						s.res.Switches[m] = Switch{Step: s.res.Steps, From: me.id, To: r.id, Site: -6}
+					}
+					s.res.NSwitch++
+					s.cur = r
+					raceOff()
+					r.wake <- struct{}{}
+					raceOn()
+					c.do()
+					parkOnly(me)
+					return i
+				}
+			} else if snd := parkedOn(key, dirSend); snd != nil {
+				release(snd)
+				raceOff()
+				snd.wake <- struct{}{}
+				raceOn()
+				c.do()
+				return i
+			}
+		}
+		if hasDefault {
+			return -1
+		}
+		me.nsel = 0
+		for i := 0; i < n; i++ {
+			if key := cases[i].selKey(); key != 0 {
+				me.sel[me.nsel] = selWait{key: key, dir: cases[i].selDir(), idx: i}
+				me.nsel++
+			}
+		}
+		me.blocked, me.waitObj = true, 0
+		if !s.handOff(me, -5) {
+			me.nsel = 0
+			return -1
+		}
+		me.nsel = 0
+		if me.rv {
+			me.rv = false
+			i := me.rvIdx
+			cases[i].do()
+			if cases[i].selDir() == dirSend {
+				parkOnly(me) // the receiver keeps the token
+			}
+			return i
+		}
+	}
+}
+
+func (c *RecvSel[T]) reflCase() reflect.SelectCase {
+	return reflect.SelectCase{Dir: reflect.SelectRecv, Chan: reflect.ValueOf(c.ch)}
+}
+
+func (c *RecvSel[T]) reflSet(v reflect.Value, ok bool) {
+	c.Ok = ok
+	if ok {
+		reflect.ValueOf(&c.V).Elem().Set(v)
+	}
+}
+
+func (c *SendSel[T]) reflCase() reflect.SelectCase {
+	v := reflect.ValueOf(&c.v).Elem()
+	return reflect.SelectCase{Dir: reflect.SelectSend, Chan: reflect.ValueOf(c.ch), Send: v}
+}
+
+func (c *SendSel[T]) reflSet(reflect.Value, bool) {}
+
+// selectReal is the select statement outside simulated runs (goroutines that a
+// defective tree leaves behind, reference evaluations): the real thing.
+func selectReal(hasDefault bool, cases []SelCase) int {
+	rc := make([]reflect.SelectCase, 0, len(cases)+1)
+	for _, c := range cases {
+		rc = append(rc, c.reflCase())
+	}
+	if hasDefault {
+		rc = append(rc, reflect.SelectCase{Dir: reflect.SelectDefault})
+	}
+	i, v, ok := reflect.Select(rc)
+	if i >= len(cases) {
+		return -1
+	}
+	cases[i].reflSet(v, ok)
+	return i
 }
